@@ -374,6 +374,13 @@ func validateRedirectURIAsOptional(
 			"invalid redirect_uri")
 	}
 
+	// The response parameters are added to the redirect URI later, so it must
+	// be possible to parse it.
+	if _, err := url.Parse(params.RedirectURI); err != nil {
+		return goidc.WrapError(goidc.ErrorCodeInvalidRequest,
+			"invalid redirect_uri", err)
+	}
+
 	return nil
 }
 
